@@ -117,9 +117,9 @@ def _toy_policy(key, state):
             L.arr, L.n = z3.Const(f"{tag}!arr", z3.ArraySort(I, Obj)), z3.Int(f"{tag}!n")
         return f
     pol = {f"{MLE}::fixed_poi_fit": fit_contract("fixed_poi_fit"), "infer/utils.py::get_test_stat": "inline",
-           ("ghost_local", key, "signal_teststat"): make_list("signal_teststat"), ("ghost_local", key, "bkg_teststat"): make_list("bkg_teststat"),
-           ("loop", key, 0): LoopSpec(f"{key}#inv.signal-loop", inv("signal_teststat", "signal_sample"), havoc("signal_teststat")),
-           ("loop", key, 1): LoopSpec(f"{key}#inv.background-loop", inv("bkg_teststat", "bkg_sample"), havoc("bkg_teststat")),
+           # the two toy loops ("L = []; for sample in toys: L.append(stat(sample))") are append-loops over a sequence of symbolic length:
+           # the interpreter reads them as the comprehension they are, whatever the local names and whether they are written as loops
+           # or comprehensions; no name-keyed ghost state or loop ordinal is needed
            "inline": [f"{CALC}::ToyCalculator.", f"{CALC}::EmpiricalDistribution."]}
     for fn in ("qmu", "qmu_tilde", "q0"):
         pol[f"{TS}::{fn}"] = teststat_contract
@@ -208,7 +208,7 @@ def t_distributions(T):
                          z3.And(st.shape[0] == ntoys, st.fn((jj,)) == TSF(poi, item_of(drawn, box_real(z3.ToReal(jj))))))
                 else:
                     T.fail(f"{key}#post.{nm}-distribution-holds-the-statistic-of-every-toy{sfx}", f"samples is {type(st).__name__}")
-        for want in ("return", "cut"):
+        for want in ("return",):
             (T.ok if want in kinds else T.fail)(f"{key}#paths.{want}-exists@{ts}", *([] if want in kinds else ["missing"]), kind="raises")
 
 
